@@ -316,7 +316,8 @@ class _ArtState:
         self.sig = None
 
 def _one_run(case, faults, tag, stats):
-    root = common.scratch_dir("c09-%d-%s" % (os.getpid(), tag))
+    root = common.scratch_dir("c09-%07d-%s" % (os.getpid(), tag))
+    common.pin_process_nondeterminism(2)
     viol = None
     sim = None
     rounds = case.get("rounds", 1)
